@@ -19,23 +19,35 @@
         → `ttl0_leaves_within_grace`.
   * "renews itself before that" → `foreign_renews_in_time`.
 
+  * "renews itself before that" / served for its whole life
+        → `live_registration_never_dropped`, `periodic_renewal_never_dropped` : under ANY timeline
+          in which every (re-)registration with TTL t is followed by at most t+4 ticks before the
+          next (periodic renewal every T s gives exactly T), the entry is listed after EVERY prefix.
   * "a broadcast originated by any node (ordinary, BBMD or foreign) is handed to the network
     layer of every other node exactly once and never back to its originator, with the true
     originator as source address"
         → `bbmd_once` : for ANY number of subnets, ordinary nodes, foreign devices, in ANY
-          order, with one BBMD per subnet whose tables list all BBMDs with full masks (two-hop
-          unicast distribution): `World.broadcast` from an ordinary node, a BBMD or a registered
-          foreign device runs to quiescence within the fuel, changes no state, hands up nothing
-          but the payload with the originator as source and "broadcast" as destination, and does
-          so exactly once at every other served node and never at the originator (`Outcome`).
-          Hypotheses: `WF` (addressing plan), `Pop` (sane tables; no foreign device on the
-          subnet of its own BBMD), `Mesh` (full mesh), `Home` (originator and target are served
-          by some BBMD: own, subnet's, or the one registered with AND listed in its FDT).
+          order, one BBMD per subnet, every BBMD listing every BBMD (`Mesh`), each BDT entry
+          either TWO-HOP (unicast to the peer, which re-broadcasts) or ONE-HOP (directed broadcast
+          that the target subnet's router port accepts; the receiving BBMD does not re-broadcast
+          what arrived as a broadcast) — mixed freely per pair (`Pop`) — and no foreign device on
+          a subnet its own BBMD broadcasts into (`NoEcho`): `World.broadcast` from an ordinary
+          node, a BBMD or a registered foreign device runs to quiescence within the fuel, changes
+          no state, hands up nothing but the payload with the originator as source and
+          "broadcast" as destination, exactly once at every other served node and never at the
+          originator (`Outcome`).
+        → `bbmd_multiplicity` : the same WITHOUT `NoEcho`: copies at x = [x ≠ o] + `echoes`
+          (closed sums over the BDTs: a foreign device also hears its own BBMD's local
+          re-broadcast / one-hop directed broadcast when it sits where that goes).
+        → `foreign_on_own_subnet_multiplicity` : the excluded misconfiguration counted (two-hop
+          mesh, foreign device on its own BBMD's subnet): own broadcast comes back once, any other
+          foreign device's broadcast arrives twice, an ordinary node's / BBMD's broadcast twice
+          unless it starts on the device's own subnet (once).
         → `partial_bdt_characterisation_ordinary / _bbmd / _foreign` : for an ARBITRARY BDT
-          relation (still two-hop entries naming BBMDs) the number of copies at any node is the
-          closed form {same subnet} + {subnets listed by the first BBMD: their BBMD, their
-          ordinary nodes if that BBMD lists itself, its registered foreign devices} + {the first
-          BBMD's own foreign devices}.
+          relation (entries naming BBMDs, two-hop or one-hop) the number of copies at any node is
+          the closed form {same subnet} + {subnets listed by the first BBMD: their BBMD, their
+          ordinary nodes, its registered foreign devices} + {the first BBMD's own foreign devices}
+          + {extra copies at misplaced foreign devices}.
         → `unregistered_foreign_hears_nothing` : while a foreign device's status is not 0
           nothing is handed up at it, whatever flies.
 
@@ -309,6 +321,167 @@ theorem foreign_tracks_ack (now : Nat) (f : Foreign) (b : Addr) (T : Nat) (dst :
     (foreignExpire f).status = -1 := by
   simp [foreignUp, hs, hb, ht, foreignExpire]
 
+
+/-! ### a live registration is never dropped -/
+
+/-- the timeline keeps the entry of `a` alive, given that it can still survive `r` ticks:
+    nobody deletes it, and every (re-)registration with TTL `t` is followed by at most `t + 4`
+    ticks before the next one -/
+def Sustained (a : Addr) : Nat → List FdtOp → Prop
+  | _, [] => True
+  | r, .tick :: ops => 1 ≤ r ∧ Sustained a (r - 1) ops
+  | r, .reg b t :: ops => if b = a then Sustained a (t + 4) ops else Sustained a r ops
+  | r, .del b :: ops => b ≠ a ∧ Sustained a r ops
+  | r, .read :: ops => Sustained a r ops
+
+instance (a : Addr) : ∀ (r : Nat) (ops : List FdtOp), Decidable (Sustained a r ops)
+  | _, [] => isTrue trivial
+  | r, .tick :: ops =>
+      have := instDecidableSustained a (r - 1) ops
+      by unfold Sustained; exact inferInstance
+  | r, .reg b t :: ops =>
+      have := instDecidableSustained a (t + 4) ops
+      have := instDecidableSustained a r ops
+      by unfold Sustained; exact inferInstance
+  | r, .del b :: ops =>
+      have := instDecidableSustained a r ops
+      by unfold Sustained; exact inferInstance
+  | r, .read :: ops =>
+      have := instDecidableSustained a r ops
+      by unfold Sustained; exact inferInstance
+
+theorem sustained_prefix (a : Addr) : ∀ (r : Nat) (p q : List FdtOp),
+    Sustained a r (p ++ q) → Sustained a r p := by
+  intro r p
+  induction p generalizing r with
+  | nil => intro _ _; trivial
+  | cons op p ih =>
+    intro q h
+    cases op with
+    | tick => exact ⟨h.1, ih _ q h.2⟩
+    | reg b t =>
+      simp only [List.cons_append, Sustained] at h ⊢
+      split
+      · next hb => simp only [hb, if_true] at h; exact ih _ q h
+      · next hb => simp only [hb, if_false] at h; exact ih _ q h
+    | del b => exact ⟨h.1, ih _ q h.2⟩
+    | read => exact ih _ q h
+
+theorem sustained_listed (a : Addr) : ∀ (ops : List FdtOp) (fdt : List FdtEntry) (r : Nat) (e : FdtEntry),
+    FdtNodup fdt → fdtLookup fdt a = some e → e.remain = r + 1 → Sustained a r ops →
+    (fdtLookup (applyOps fdt ops) a).isSome = true := by
+  intro ops
+  induction ops with
+  | nil => intro fdt r e _ hl _ _; simp [applyOps, hl]
+  | cons op ops ih =>
+    intro fdt r e hnd hl hr hs
+    have hnd' := applyOp_nodup fdt op hnd
+    show (fdtLookup (applyOps (applyOp fdt op) ops) a).isSome = true
+    cases op with
+    | tick =>
+      have h1 := applyOp_lookup_other fdt .tick a hnd rfl
+      rw [hl] at h1
+      have hne : ¬ e.remain ≤ 1 := by have := hs.1; omega
+      simp only [FdtOp.isTick, if_true, hne, if_false] at h1
+      exact ih _ (r - 1) _ hnd' h1 (by simp; have := hs.1; omega) hs.2
+    | reg b t =>
+      simp only [Sustained] at hs
+      by_cases hb : b = a
+      · subst hb
+        simp only [if_true] at hs
+        exact ih _ (t + 4) _ hnd' (register_lookup_self fdt b t) rfl hs
+      · simp only [hb, if_false] at hs
+        have h1 := applyOp_lookup_other fdt (.reg b t) a hnd (by simp [FdtOp.names, hb])
+        simp only [FdtOp.isTick] at h1
+        exact ih _ r e hnd' (by rw [h1]; simpa using hl) hr hs
+    | del b =>
+      have h1 := applyOp_lookup_other fdt (.del b) a hnd (by simp [FdtOp.names, hs.1])
+      simp only [FdtOp.isTick] at h1
+      exact ih _ r e hnd' (by rw [h1]; simpa using hl) hr hs.2
+    | read =>
+      exact ih _ r e hnd' hl hr hs
+
+/-- **live_registration_never_dropped**: once `a` has registered with TTL `T`, under ANY timeline
+    in which nobody deletes its entry and each of its (re-)registrations with TTL `t` is followed by
+    at most `t + 4` ageing ticks before the next one — in particular under periodic renewal every
+    `T` seconds, which puts exactly `T < T + 5` ticks between renewals (`foreign_renews_in_time`) —
+    the entry is listed after EVERY prefix of the timeline, whatever else happens to the table -/
+theorem live_registration_never_dropped (fdt : List FdtEntry) (hnd : FdtNodup fdt) (a : Addr) (T : Nat)
+    (ops : List FdtOp) (hs : Sustained a (T + 4) ops) :
+    ∀ p q, ops = p ++ q → (fdtLookup (applyOps (fdtRegister fdt a T) p) a).isSome = true := by
+  intro p q hpq
+  subst hpq
+  exact sustained_listed a p _ (T + 4) _ (register_nodup fdt a T hnd) (register_lookup_self fdt a T) rfl
+    (sustained_prefix a _ p q hs)
+
+/-- periodic renewal: blocks of foreign traffic with at most `T + 4` ticks each (the renewal period
+    gives exactly `T`), each closed by the next Register-Foreign-Device(T) of `a` -/
+def renewals (a : Addr) (T : Nat) (blocks : List (List FdtOp)) : List FdtOp :=
+  blocks.flatMap fun blk => blk ++ [.reg a T]
+
+theorem sustained_block (a : Addr) (T : Nat) (rest : List FdtOp) (hrest : Sustained a (T + 4) rest) :
+    ∀ (blk : List FdtOp) (r : Nat), (∀ op ∈ blk, FdtOp.names a op = false) → ticks blk ≤ r →
+      Sustained a r (blk ++ .reg a T :: rest) := by
+  intro blk
+  induction blk with
+  | nil =>
+    intro r _ _
+    simp only [List.nil_append, Sustained, if_true]
+    exact hrest
+  | cons op blk ih =>
+    intro r hn ht
+    have hn' : ∀ o ∈ blk, FdtOp.names a o = false := fun o ho => hn o (List.mem_cons_of_mem _ ho)
+    have hop := hn op (List.mem_cons_self ..)
+    cases op with
+    | tick =>
+      have ht' : ticks blk + 1 ≤ r := by
+        simp only [ticks, List.countP_cons, FdtOp.isTick, if_true] at ht ⊢; exact ht
+      exact ⟨by omega, ih (r - 1) hn' (by omega)⟩
+    | reg b t =>
+      have hb : b ≠ a := by intro h; simp [FdtOp.names, h] at hop
+      have ht' : ticks blk ≤ r := by
+        simp only [ticks, List.countP_cons, FdtOp.isTick] at ht ⊢; simpa using ht
+      simp only [List.cons_append, Sustained, hb, if_false]
+      exact ih r hn' ht'
+    | del b =>
+      have hb : b ≠ a := by intro h; simp [FdtOp.names, h] at hop
+      have ht' : ticks blk ≤ r := by
+        simp only [ticks, List.countP_cons, FdtOp.isTick] at ht ⊢; simpa using ht
+      exact ⟨hb, ih r hn' ht'⟩
+    | read =>
+      have ht' : ticks blk ≤ r := by
+        simp only [ticks, List.countP_cons, FdtOp.isTick] at ht ⊢; simpa using ht
+      exact ih r hn' ht'
+
+/-- periodic renewal is a sustained timeline: `T ≤ T + 4` -/
+theorem renewals_sustained (a : Addr) (T : Nat) (blocks : List (List FdtOp))
+    (hb : ∀ blk ∈ blocks, (∀ op ∈ blk, FdtOp.names a op = false) ∧ ticks blk ≤ T + 4) :
+    Sustained a (T + 4) (renewals a T blocks) := by
+  induction blocks with
+  | nil => trivial
+  | cons blk blocks ih =>
+    have ih' := ih (fun b hb' => hb b (List.mem_cons_of_mem _ hb'))
+    obtain ⟨hn, ht⟩ := hb blk (List.mem_cons_self ..)
+    unfold renewals at ih' ⊢
+    rw [List.flatMap_cons, List.append_assoc]
+    exact sustained_block a T _ ih' blk (T + 4) hn ht
+
+/-- a foreign device that renews every `T` seconds (exactly `T` ticks per period) is listed at
+    every instant, for ever, whatever the other devices do -/
+theorem periodic_renewal_never_dropped (fdt : List FdtEntry) (hnd : FdtNodup fdt) (a : Addr) (T : Nat)
+    (blocks : List (List FdtOp))
+    (hb : ∀ blk ∈ blocks, (∀ op ∈ blk, FdtOp.names a op = false) ∧ ticks blk = T) :
+    ∀ p q, renewals a T blocks = p ++ q →
+      (fdtLookup (applyOps (fdtRegister fdt a T) p) a).isSome = true :=
+  live_registration_never_dropped fdt hnd a T _
+    (renewals_sustained a T blocks (fun blk h => ⟨(hb blk h).1, by have := (hb blk h).2; omega⟩))
+
+/-- non-vacuity / test: TTL 2, three renewal periods of 2 ticks with foreign traffic in between -/
+example :
+    let a : Addr := ⟨0x0A000364, 47808⟩
+    let b : Addr := ⟨0x0A000465, 47808⟩
+    Sustained a 6 (renewals a 2 [[.tick, .reg b 9, .tick], [.tick, .read, .tick], [.del b, .tick, .tick]]) := by
+  decide
 
 /-! ## broadcast distribution -/
 
